@@ -17,15 +17,29 @@ Definition faulty (base : Divider) (delta : Z) : Divider :=
     | p0 :: _ => if (0 <=? delta)%Z then add r p0 (Z.to_N delta) else set r p0 (get r p0 - Z.to_N (- delta))
     end.
 
+(* the same, but the surplus/shortage lands on the highest configured priority that is NOT in the list the divider
+   was called with (if there is one): a fault that a check of the listed entries alone would miss *)
+Definition faulty_outside (base : Divider) (delta : Z) (all : list N) : Divider :=
+  fun ps d t =>
+    match filter (fun q => negb (existsb (N.eqb q) ps)) all with
+    | [] => faulty base delta ps d t
+    | q :: _ => let r := base ps d t in
+                if (0 <=? delta)%Z then add r q (Z.to_N delta) else set r q (get r q - Z.to_N (- delta))
+    end.
+
 Record psim := mkPsim {
   ps_st : st;
   ps_held : list N;            (* priorities of the items the driver holds, in the order they were taken *)
   ps_next : N;                 (* next item value *)
-  ps_fault : option (nat * Z)  (* (call number, delta) *)
+  ps_fault : option (nat * Z * bool)  (* (call number, delta, outside?) *)
 }.
 
-Definition sim_dv (base : Divider) (f : option (nat * Z)) : nat -> Divider :=
-  fun k => match f with Some (n, delta) => if Nat.eqb k n then faulty base delta else base | None => base end.
+Definition sim_dv (base : Divider) (all : list N) (f : option (nat * Z * bool)) : nat -> Divider :=
+  fun k => match f with
+           | Some (n, delta, outside) =>
+               if Nat.eqb k n then (if outside then faulty_outside base delta all else faulty base delta) else base
+           | None => base
+           end.
 
 Definition digest (s : st) : list N :=
   flat_map (fun p => [N.of_nat (length (inq s p)); if drained s p then 1 else 0; get (actual s) p]) (prios s)
@@ -103,7 +117,9 @@ Definition apply_op (base : Divider) (fuel : nat) (sm : psim) (code arg : Z) (se
       | None => (s, sm, (0, 0))
       end
     else if (code =? 5)%Z then
-      (s, mkPsim s (ps_held sm) (ps_next sm) (Some (ncalls s, arg)), (0, 0))
+      (s, mkPsim s (ps_held sm) (ps_next sm) (Some (ncalls s, arg, false)), (0, 0))
+    else if (code =? 7)%Z then
+      (s, mkPsim s (ps_held sm) (ps_next sm) (Some (ncalls s, arg, true)), (0, 0))
     else (s, sm, (0, 0)) in
-  let s2 := sched_run (sim_dv base (ps_fault sm1)) fuel settle None s1 in
+  let s2 := sched_run (sim_dv base (prios s1) (ps_fault sm1)) fuel settle None s1 in
   (mkPsim s2 (ps_held sm1) (ps_next sm1) (ps_fault sm1), res).
